@@ -18,7 +18,7 @@ out = {
  "engines": [{
   "name": "symgo", "path": "/verif/engine",
   "serves_properties": sorted(claimed),
-  "kind_free_text": "bounded symbolic executor for Go: fork of golang.org/x/tools/go/ssa/interp (v0.29.0) over the go/ssa form of /repo rebuilt on every run; bit-vector/floating-point terms decided by z3 4.8.12 over a pipe; re-execution based path exploration on 16 worker processes; candidate violations replayed natively before being reported"
+  "kind_free_text": "bounded symbolic executor for Go: fork of golang.org/x/tools/go/ssa/interp (v0.29.0) over the go/ssa form of /repo rebuilt on every run; bit-vector/floating-point terms decided by z3 5.1.0 (z3-new -in, fallback 4.8.12) over a pipe, a log-spaced sample of the unsat verdicts re-decided by z3 4.8.12 one-shot; re-execution based path exploration on 16 worker processes; candidate violations replayed natively before being reported"
  }],
  "checks": [],
  "not_applicable": [],
@@ -35,7 +35,7 @@ for c in checks['checks']:
      "engine": "symgo",
      "level_claimed": {"category": "model_checking", "text": c['text'], "design_ref": c.get('design_ref', 'DESIGN.md §4 ' + pid)},
      "level_note": c['note'],
-     "technique": c.get('technique', 'bounded symbolic execution of go/ssa + SMT (z3): every path of the harness within the stated bounds, obligations discharged by the solver, counterexamples replayed natively')
+     "technique": c.get('technique', 'bounded symbolic execution of go/ssa + SMT (z3): every path of the harness within the stated bounds, obligations discharged by the solver (sampled unsat verdicts cross-checked on a second solver build), counterexamples replayed natively')
     })
 for p in props:
     if p['id'] not in claimed:
